@@ -10,30 +10,37 @@ def outdir_state(d):
 
 class Crate:
     def __init__(self, root, tag):
-        self.root = root; shutil.rmtree(root, ignore_errors=True); self.w = os.path.join(root, 'w'); os.makedirs(os.path.join(self.w, 'src')); os.makedirs(os.path.join(self.w, 'deps')); os.makedirs(os.path.join(self.w, 'out'))
+        self.root = root; shutil.rmtree(root, ignore_errors=True); self.w = os.path.join(root, 'w'); os.makedirs(os.path.join(self.w, 'src')); os.makedirs(os.path.join(self.w, 'deps')); os.makedirs(os.path.join(self.w, 'out')); os.makedirs(os.path.join(self.w, 'native'))
         self.sc = Sc(os.path.join(root, 'sc'), tag)
-        self.files = {'src/lib.rs': 'mod m;\npub fn f() -> u32 { m::g() + dep::d() + DATA.len() as u32 + env!("MYVAR").len() as u32 + extra() }\nconst DATA: &str = include_str!("data.txt");\n#[cfg(feature = "x")] fn extra() -> u32 { 10 }\n#[cfg(not(feature = "x"))] fn extra() -> u32 { 0 }\n',
+        self.files = {'src/lib.rs': 'mod m;\nextern "C" { fn answer() -> u32; }\npub fn n() -> u32 { unsafe { answer() } }\npub fn f() -> u32 { m::g() + dep::d() + DATA.len() as u32 + env!("MYVAR").len() as u32 + extra() }\nconst DATA: &str = include_str!("data.txt");\n#[cfg(feature = "x")] fn extra() -> u32 { 10 }\n#[cfg(not(feature = "x"))] fn extra() -> u32 { 0 }\n',
                       'src/m.rs': 'pub fn g() -> u32 { 1 }\n', 'src/data.txt': 'hello\n', 'deps/dep.rs': 'pub fn d() -> u32 { 5 }\n'}
         for k, v in self.files.items(): self.write(k, v)
-        self.env = {'MYVAR': 'abc'}; self.cfgs = ['feature="x"', 'feature="y"']; self.build_dep()
+        self.env = {'MYVAR': 'abc'}; self.cfgs = ['feature="x"', 'feature="y"']; self.build_dep(); self.native_form = '-L native'; self.build_native(42)
     def write(self, rel, text):
         open(os.path.join(self.w, rel), 'w').write(text); self.files[rel] = text
     def build_dep(self):
         subprocess.run(['rustc', '--crate-name', 'dep', '--crate-type', 'lib', '--edition=2021', 'deps/dep.rs', '--out-dir', 'deps', '-C', 'metadata=1'], cwd=self.w, check=True, capture_output=True)
+    def build_native(self, v):
+        # a static library found through -L: its *contents* are an input of the crate (bundled into the rlib)
+        self.files['native/answer.c'] = 'unsigned answer(void) { return %d; }\n' % v
+        open(os.path.join(self.w, 'native/answer.c'), 'w').write(self.files['native/answer.c'])
+        subprocess.run(['cc', '-c', 'answer.c', '-o', 'answer.o'], cwd=os.path.join(self.w, 'native'), check=True)
+        if os.path.exists(os.path.join(self.w, 'native/libanswer.a')): os.remove(os.path.join(self.w, 'native/libanswer.a'))
+        subprocess.run(['ar', 'rcsD', 'libanswer.a', 'answer.o'], cwd=os.path.join(self.w, 'native'), check=True)
     def argv(self, order=0):
         cfg = sum((['--cfg', c] for c in (self.cfgs if order % 2 == 0 else list(reversed(self.cfgs)))), [])
         ext = ['--extern', 'dep=deps/libdep.rlib', '-L', 'dependency=deps']
         if order >= 2: ext = ['-L', 'dependency=deps', '--extern', 'dep=deps/libdep.rlib']
         return ['rustc', '--crate-name', 'top', '--crate-type', 'lib', '--edition=2021', '--emit=dep-info,metadata,link', '-C', 'metadata=abc', '-C', 'extra-filename=-abc',
-                'src/lib.rs', '--out-dir', 'out'] + cfg + ext
+                'src/lib.rs', '--out-dir', 'out'] + cfg + ext + self.native_form.split() + ['-l', 'static=answer']
 
 def run(root, tag, seed, n_req):
     rng = random.Random(seed); c = Crate(root, tag); fails = []; trace = []; reqs = hits = misses = 0; seen = set()
     c.sc.start()
     try:
         for i in range(n_req):
-            k = rng.randrange(9) if i else 8
-            note = {0: 'edit module', 1: 'edit include_str! file', 2: 'change env! variable', 3: 'toggle a cfg feature', 4: 'edit the extern crate', 5: 'reorder --cfg', 6: 'reorder --extern/-L', 7: 'edit lib.rs', 8: 'no change'}[k]
+            k = rng.randrange(11) if i else 8
+            note = {0: 'edit module', 1: 'edit include_str! file', 2: 'change env! variable', 3: 'toggle a cfg feature', 4: 'edit the extern crate', 5: 'reorder --cfg', 6: 'reorder --extern/-L', 7: 'edit lib.rs', 8: 'no change', 9: 'rebuild the static library with new contents', 10: 'switch -L form (plain / native=)'}[k]
             order = 0
             if k == 0: c.write('src/m.rs', 'pub fn g() -> u32 { %d }\n' % rng.randrange(2, 99))
             elif k == 1: c.write('src/data.txt', 'hello %d\n' % rng.randrange(99))
@@ -42,6 +49,8 @@ def run(root, tag, seed, n_req):
             elif k == 4: c.write('deps/dep.rs', 'pub fn d() -> u32 { %d }\n' % rng.randrange(6, 99)); c.build_dep()
             elif k == 5: order = 1
             elif k == 6: order = 2
+            elif k == 9: c.build_native(rng.randrange(1000))
+            elif k == 10: c.native_form = '-L native=native' if c.native_form == '-L native' else '-L native'
             elif k == 7: c.write('src/lib.rs', c.files['src/lib.rs'].rstrip('\n') + '\n// edit %d\n' % rng.randrange(999))
             argv = c.argv(order); env = dict(c.env)
             fp = (tuple(sorted(c.files.items())), tuple(sorted(c.cfgs)), tuple(sorted(env.items())))
